@@ -294,7 +294,7 @@ pub fn coverage(a: &Analysis<'_>) -> Coverage {
             if r.changed.len() >= 2 {
                 c.p8_multi_changed_reply = true;
             }
-            if r.changed.iter().any(|n| !crate::refmodel::mpdspec::SUBSYSTEMS.contains(&n.as_str())) {
+            if r.changed.iter().any(|n| n != "epilogue_probe" && !crate::refmodel::mpdspec::SUBSYSTEMS.contains(&n.as_str())) {
                 c.p8_unknown_subsystem = true;
             }
         }
@@ -318,7 +318,7 @@ pub fn coverage(a: &Analysis<'_>) -> Coverage {
             EvKind::CallEnd { result: CallResult::ErrResponse { .. }, .. } => c.p10_list_failure = true,
             EvKind::Notify { while_idle: false, .. } => c.p9_change_while_request_in_flight = true,
             EvKind::Hook(h) if h == "SelectReply" => c.select_reply_first = true,
-            EvKind::Hook(h) if h.starts_with("SelectCommand") => c.select_command_first = true,
+            EvKind::Hook(h) if h.starts_with("SelectCommand") && h.contains("true") => c.select_command_first = true,
             _ => {}
         }
     }
